@@ -217,6 +217,28 @@ func init() {
 	}
 }
 
+// Sequential part: histories over the part-sharing alphabet (see shareAlphabet in c01_test.go)
+// followed by a GC pass; every object must stay readable (full-state comparison with the model).
+func init() {
+	sx.Register(&sx.Spec{Name: "C08share", Buckets: []string{"bka"}, Keys: []string{"k1", "k2"}, Alphabet: shareAlphabet,
+		Assert: map[string]bool{"content": true, "exist": true, "gc": true},
+		Extra: func(c *sx.StepCtx) []sx.Diff {
+			// after the step: GC, then everything must still be readable and equal to the model
+			if err := c.W.RunGC(context.Background()); err != nil {
+				return []sx.Diff{{Class: "gc", Where: "gc pass", Model: "ok", Impl: err.Error()}}
+			}
+			obs, _ := c.D.Observe(c.Spec.Buckets, c.Spec.Keys)
+			var out []sx.Diff
+			for _, d := range sx.DiffObs(c.M.Observe(c.Spec.Buckets, c.Spec.Keys), obs) {
+				if d.Class == "content" || d.Class == "exist" {
+					d.Where = "after a GC pass: " + d.Where
+					out = append(out, d)
+				}
+			}
+			return out
+		}})
+}
+
 func TestC08(t *testing.T) {
 	run := ev.NewRun("C08", "model_checking")
 	run.Assumptions = []string{"single-store worlds (filesystem: GC deletes externally after its commit; SQL: in-transaction deletes)", "GC grace window 1 ms, elapsed for all seeded parts; parts created during the run are too young to be candidates",
@@ -236,8 +258,17 @@ func TestC08(t *testing.T) {
 	if !quick() {
 		bound = 3
 	}
+	sh := &sx.Search{Run: run, TestRun: "^TestWorker$", Spec: sx.SpecByName("C08share"), Seeds: shareSeeds, Depth: 4, Stacks: []string{world.StackFS}}
+	if !quick() {
+		sh.Depth, sh.Stacks = 6, []string{world.StackFS, world.StackSQL}
+	}
+	sh.Explore()
 	exploreScenarios(t, run, names, bound, tot, nil)
 	tot.coverage(run)
+	run.Cov["sequential_sharing_histories"] = map[string]any{"states": sh.States, "transitions": sh.Transitions, "depth": sh.DepthDone}
+	run.Cov["states"] = run.Cov["states"].(int) + sh.States
+	run.Cov["transitions"] = run.Cov["transitions"].(int) + sh.Transitions
+	run.Cov["traces_validated_against_impl"] = run.Cov["transitions"]
 	fmt.Printf("C08: executions=%d per=%v\n", tot.Executions, tot.PerScen)
 	finish(t, run)
 }
